@@ -2661,6 +2661,9 @@ func (f *fragment) readStorageFromArchive(r io.Reader) error {
 		return errors.Wrap(err, "opening")
 	}
 
+	// The block checksums describe the storage that was just replaced.
+	f.checksums = make(map[int][]byte)
+
 	return nil
 }
 
